@@ -76,6 +76,10 @@ pub struct Case {
     /// are refused by xcp, which would leave the populated-destination classes mostly unjudged)
     #[serde(default)]
     pub nolinks: bool,
+    /// options that must not change the mapping: bit0 --fsync, 1 --no-perms, 2 --no-timestamps,
+    /// 3 --backup=numbered, 4 --backup=auto, 5 --ownership
+    #[serde(default)]
+    pub extra: u8,
 }
 
 fn src_spec() -> BoxedStrategy<SrcSpec> {
@@ -106,8 +110,9 @@ pub fn strategy() -> BoxedStrategy<Case> {
         prop::bool::weighted(0.15),
         prop_oneof![5 => Just(GlobMode::Off), 2 => (0u8..255).prop_map(GlobMode::Patterns), 1 => Just(GlobMode::Star)],
         prop::bool::weighted(0.4),
+        prop_oneof![3 => Just(0u8), 2 => 0u8..64],
     )
-        .prop_map(|(srcs, dest, dest_spell, flags, no_target_dir, target_dir_opt, glob, nolinks)| Case { srcs, dest, dest_spell, flags, no_target_dir, target_dir_opt, glob, nolinks })
+        .prop_map(|(srcs, dest, dest_spell, flags, no_target_dir, target_dir_opt, glob, nolinks, extra)| Case { srcs, dest, dest_spell, flags, no_target_dir, target_dir_opt, glob, nolinks, extra })
         .boxed()
 }
 
@@ -327,6 +332,11 @@ pub fn build(c: &Case, root_abs: &[u8]) -> Built {
     // invocation
     let mut inv = Inv::default();
     apply_common(&mut inv, c.flags);
+    inv.fsync = c.extra & 1 != 0;
+    inv.no_perms = c.extra & 2 != 0;
+    inv.no_timestamps = c.extra & 4 != 0;
+    inv.backup = if c.extra & 8 != 0 { "numbered".into() } else if c.extra & 16 != 0 { "auto".into() } else { String::new() };
+    inv.ownership = c.extra & 32 != 0;
     inv.recursive = src_is_dir.iter().any(|d| *d) || eff_kinds.iter().any(|k| matches!(k, SrcKind::LinkToDir)) || c.flags.1 % 2 == 0;
     inv.no_target_dir = no_target_dir;
     inv.target_dir_opt = target_dir_opt;
@@ -484,7 +494,11 @@ pub fn judge(c: &Case, rec: &mut Rec) -> Verdict {
     if new {
         rec.sample(json!({"argv": b.inv.argv_s(), "dest_state": b.dest_state, "mapped_entries": mapped.len(), "mapping_head": mapped.iter().take(4).map(|m| format!("{} -> {} ({:?})", esc(&m.src), esc(&m.dst), m.kind)).collect::<Vec<_>>()}));
     }
-    let diffs = model::compare_success(&pre, &post, &mapped, &model::CmpOpts::default());
+    let opts = model::CmpOpts { allow_new: if b.inv.backup.is_empty() { None } else { Some(super::c04::is_backup_name) }, ..model::CmpOpts::default() };
+    if c.extra != 0 {
+        rec.class(format!("extra-options|{}", driver));
+    }
+    let diffs = model::compare_success(&pre, &post, &mapped, &opts);
     if diffs.is_empty() {
         return Verdict::Pass;
     }
